@@ -191,12 +191,12 @@ end generic
 
 open BronVerif.Window in
 /-- `len` little-endian bytes of `k` (`none` if `k` does not fit) -/
-def natToLE? (len k : Nat) : Option (List UInt8) :=
-  if k < 2 ^ (8 * len) then some ((List.range len).map fun i => UInt8.ofNat ((k >>> (8 * i)) % 256)) else none
+def natToLE? (len k : Nat) : Option (Array UInt8) :=
+  if k < 2 ^ (8 * len) then some ((Array.range len).map fun i => UInt8.ofNat ((k >>> (8 * i)) % 256)) else none
 
 /-- hex byte string in slice order (`-`/`_` = empty) -/
-def hexLE? (s : String) : Option (List UInt8) :=
-  if s == "-" || s == "_" then some [] else (hexToBytes? s).map (·.toList)
+def hexLE? (s : String) : Option (Array UInt8) :=
+  if s == "-" || s == "_" then some #[] else (hexToBytes? s).map (·.data)
 
 /-- multipliers `mᵢ` of the points `Pᵢ = mᵢ·G` -/
 def expandPSpec (order n : Nat) (s : String) : Option (List Nat) :=
@@ -216,7 +216,7 @@ def parseAssign? (s : String) : Option (Nat × Nat) :=
   | _ => none
 
 /-- scalars as little-endian byte strings -/
-def expandSSpec (n : Nat) (s : String) : Option (List (List UInt8)) :=
+def expandSSpec (n : Nat) (s : String) : Option (List (Array UInt8)) :=
   match s.splitOn ":" with
   | kind :: rest =>
     let tag := (kind.take 1).toString
@@ -229,7 +229,7 @@ def expandSSpec (n : Nat) (s : String) : Option (List (List UInt8)) :=
       let d ← hexToNat? d
       let dflt ← natToLE? len d
       let exs ← (splitComma ex).mapM parseAssign?
-      let arr ← exs.foldlM (fun (a : Array (List UInt8)) (iv : Nat × Nat) =>
+      let arr ← exs.foldlM (fun (a : Array (Array UInt8)) (iv : Nat × Nat) =>
         if iv.1 < a.size then (natToLE? len iv.2).map (a.set! iv.1 ·) else none) (Array.replicate n dflt)
       some arr.toList
     | "a", some len, [a, b, m] => do
@@ -248,21 +248,24 @@ def expandSSpec (n : Nat) (s : String) : Option (List (List UInt8)) :=
 
 open BronVerif.Window in
 /-- the Go functions' model on `ℤ/order` -/
-def znMsm (order : Nat) (bs : List (List UInt8)) (ms : List Nat) : Nat :=
+def znMsm (order : Nat) (bs : List (Array UInt8)) (ms : List Nat) : Nat :=
   (Window.msm (G := ZN order) (fun x => x.val == 0) bs (ms.map fun m => ⟨m % order⟩)).val
 
 open BronVerif.Window in
-def znSmulAgree (order : Nat) (bs : List UInt8) (m total : Nat) : Bool :=
+/-- the Go-literal nibble ladder and the generic ladder of every width `1 … 10` plus one of
+`11 … 16` (their tables have up to `2^16` entries; the choice depends on the scalar) -/
+def znSmulAgree (order : Nat) (bs : Array UInt8) (m total : Nat) : Bool :=
   (smulNibble (G := ZN order) ⟨m % order⟩ bs).val == total &&
-  (List.range 16).all fun i => (windowedSmul (G := ZN order) (i + 1) ⟨m % order⟩ bs).val == total
+  ((List.range 10).map (· + 1) ++ [11 + (bs.size + total) % 6]).all fun w =>
+    (windowedSmul (G := ZN order) w ⟨m % order⟩ bs).val == total
 
 /-- the Go functions' model on the runtime curve points -/
-def ptSmulNibble (C : Params) (bs : List UInt8) (P : Pt) : Pt :=
+def ptSmulNibble (C : Params) (bs : Array UInt8) (P : Pt) : Pt :=
   letI : Add Pt := ⟨Curves.add C⟩
   letI : OfNat Pt 0 := ⟨Curves.zero C⟩
   Window.smulNibble P bs
 
-def ptMsm (C : Params) (bs : List (List UInt8)) (ps : List Pt) : Pt :=
+def ptMsm (C : Params) (bs : List (Array UInt8)) (ps : List Pt) : Pt :=
   letI : Add Pt := ⟨Curves.add C⟩
   letI : OfNat Pt 0 := ⟨Curves.zero C⟩
   Window.msm (fun P => Curves.isZero C P) bs ps
